@@ -209,7 +209,8 @@ package cert
 //@   given EXTOIDS
 //@   ensures @C06 oidv(res.Id) == specExtOid(1)
 //@   ensures @C06 res.Critical == critical
-//@   ensures @C07 bytes(res.Value) == bitstringDer(namedBytes(flags & 254), namedBitLen(flags & 254))
+// (C02: canonical DER - no trailing zero bits, no content octet for an empty list)
+//@   ensures @C07,C02 bytes(res.Value) == bitstringDer(namedBytes(flags & 254), namedBitLen(flags & 254))
 
 //@ func (GeneralNameRFC822).marshal returns (b, err)
 //@   props C07 C16
